@@ -181,6 +181,11 @@ func genLifeWorkload(w *Tape, variant string) *lifeWorkload {
 					if w.Draw(6) == 0 {
 						row.Pad = w.Range(20, 300)
 					}
+					// A batch rejected at validation must leave the buffered state (including
+					// the age of what is already buffered) exactly as it was.
+					if w.Draw(10) == 0 {
+						row.Bad = true
+					}
 					op.Rows = append(op.Rows, row)
 				}
 				ops = append(ops, op)
@@ -949,6 +954,9 @@ func (st *lifeState) evaluate(clientsFinished bool) {
 			if b.NRows > 0 && len(b.Answers) > 0 && b.Answers[0].Err == nil {
 				r.NonTriv["C10"] = true
 				r.Probe("c10.auto-flushed-batches")
+			}
+			if b.HasBad && len(b.Answers) > 0 && b.Answers[0].Err != nil {
+				r.Probe("c10.rejected-batches")
 			}
 		}
 	}
